@@ -11,3 +11,6 @@ if(VERIF_FLAVOUR STREQUAL "asan")
 endif()
 
 verif_exe(valtool valtool.cpp)
+
+verif_exe(bsx bsx.cpp)
+add_executable(vtool vtool.c)
